@@ -209,7 +209,7 @@ def run_shard(ctx):
     for i in range(n):
         if ctx.out_of_time():
             break
-        K = int(rng.integers(1, 41))
+        K = int(rng.integers(1, 41)) if rng.random() > .05 else int(rng.integers(100, 300))
         cv = gens.label_vector(rng, ncycles=K, gaps=bool(rng.random() < .7))
         if rng.random() < .3:
             cv = cv.astype(gens.pick(rng, [np.int32, np.int16]))
